@@ -151,6 +151,24 @@ def run(tier: str) -> int:
                     nacc += 1
                     if variant == variants[0]:
                         results.append((ci, json.dumps(sorted((list(k), v) for k, v in got.items()))))
+                # single edit: one content byte of one file changes, size and timestamps stay the same
+                files = [e for e in tree if e["k"] == "f"]
+                if got == exp and exp != "REJECTED" and files and (ci + variant) % 2 == 0:
+                    e = files[(ci + variant) % len(files)]
+                    fp = base.joinpath(*[names[s] for s in e["p"]])
+                    st = fp.stat()
+                    old = fp.read_bytes()
+                    new = (bytes([old[0] ^ 0x01]) + old[1:]) if old else None
+                    if new is not None:
+                        fp.write_bytes(new)
+                        os.utime(fp, ns=(st.st_atime_ns, st.st_mtime_ns))
+                        again = flatten(dir_hashsums(base))
+                        want = dict(exp)
+                        want[tuple(names[s] for s in e["p"])] = "sha256:" + hashlib.sha256(new).hexdigest()
+                        rep.evaluations += 1
+                        if again != want:
+                            rep.violation(f"after changing one byte of {'/'.join(e['p'])} (same size, timestamps restored) "
+                                          f"dir_hashsums does not show the digest of the new content", {"tree": tree, "variant": variant})
                 shutil.rmtree(base.parent, ignore_errors=True)
         # injectivity on the real results: equal hashsum trees only for semantically equal directories
         sem = {}
